@@ -1,4 +1,9 @@
 import JominiModel.Props.C11
-open Jomini.Props.C11
-#print axioms C11_bool
-#print axioms C11_u64_digits
+#print axioms Jomini.Props.C11.C11_bool
+#print axioms Jomini.Props.C11.C11_u64_digits
+#print axioms Jomini.Props.C11.C11_u64
+#print axioms Jomini.Props.C11.C11_u64_out_of_range
+#print axioms Jomini.Props.C11.C11_u64_foreign
+#print axioms Jomini.Props.C11.C11_i64
+#print axioms Jomini.Props.C11.C11_i64_out_of_range
+#print axioms Jomini.Props.C11.C11_i64_foreign
